@@ -1058,7 +1058,8 @@ class QueryBuilder(Selectable, Term):  # type:ignore[misc]
         self._for_update = True
         self._for_update_skip_locked = skip_locked
         self._for_update_nowait = nowait
-        self._for_update_of = set(of)
+        # de-duplicated, in call order (a set would render in hash order)
+        self._for_update_of = dict.fromkeys(of)  # type:ignore[assignment]
 
     @builder
     def do_nothing(self) -> "Self":  # type:ignore[return]
